@@ -193,3 +193,43 @@ func allocExample(fn string) string {
 	}
 	return "Array.prototype.slice.call({length: 4294967295})"
 }
+
+func init() {
+	register(&Rule{ID: "COPY-empty-dst", Props: []string{"C17", "C20"}, Min: 2,
+		Doc: "G (library precondition, census): the builtin copy(dst, src) copies min(len(dst), len(src)) elements, so a destination made with length 0 (make([]T, 0, n)) receives nothing however large its capacity. Every copy of the module whose destination is a slice made in the same function must have been made with a non-zero length (the source's length, or a length the code computes); `out := make([]string, 0, len(in)); copy(out, in)` in a clone method hands the copy an empty table",
+		Run: ruleCopyEmptyDst})
+}
+
+func ruleCopyEmptyDst(c *Ctx, r *R) {
+	n := 0
+	for _, fn := range c.AllSrcFuncs("", "parser", "file", "ast", "token", "registry") {
+		ord := 0
+		for _, b := range fn.Blocks {
+			for _, ins := range b.Instrs {
+				call, ok := ins.(*ssa.Call)
+				if !ok {
+					continue
+				}
+				bi, ok := call.Call.Value.(*ssa.Builtin)
+				if !ok || bi.Name() != "copy" {
+					continue
+				}
+				n++
+				ord++
+				key := fmt.Sprintf("%s:copy#%d", ssaFuncName(fn), ord)
+				site := c.Pos(instrPos(call))
+				mk, ok := normCell(call.Call.Args[0]).(*ssa.MakeSlice)
+				if !ok {
+					r.ok(key, site, "destination not made here (its length is the caller's)")
+					continue
+				}
+				if k, ok := constInt(mk.Len); ok && k == 0 {
+					r.bad(key, site, fmt.Sprintf("%s copies into a slice it made with length 0 (make([]T, 0, n)): copy transfers min(len(dst), len(src)) = 0 elements, so the destination stays empty - a clone made this way loses the table it was meant to duplicate", ssaFuncName(fn)))
+					continue
+				}
+				r.ok(key, site, "destination made with a non-zero length expression")
+			}
+		}
+	}
+	r.note("copies", n)
+}
